@@ -110,6 +110,43 @@ CONFIG['C06'] = {'assumptions': ['media types in consumes lists, defaults and re
                   'downstream of the gate (parameter binder calling Consume only when HasBody, handler invocation) is modelled by '
                   '`consumerRan`/`handlerRan` and checked differentially only']}
 
+CONFIG['C13'] = {'assumptions': ["Content-Type values, defaults, registry keys and header names are ASCII (Go's Unicode lower-casing/TrimSpace differ beyond ASCII, "
+                 'e.g. U+212A); header names are token characters',
+                 "the wire (RoundTripper) fails the round trip exactly when the request's context is already done, as net/http's Transport does",
+                 'the response to a request is a function of that request (net : Op -> Resp) in the concurrency model'],
+ 'go_entry': 'client.(*Runtime).Submit (client/runtime.go), client.response (client/response.go), mime.ParseMediaType',
+ 'model_fn': 'submit / selectConsumer / parseMediaType / adapterView / chooseClient / chooseCtx',
+ 'partial': ['data-race freedom (Go memory model) is NOT proved: FullStatement keeps it as the parameter DataRaceFree; full_statement_partial proves '
+             'the sequential part and the interleaving part on the step model. Support: stream R in the -race build (tier race), concurrent first '
+             'calls, per-call tokens',
+             'atomicity and happens-before of sync.Once are assumed by the step model, not proved'],
+ 'quick_n': 12000,
+ 'race_n': 60,
+ 'race_thorough_factor': 20,
+ 'rule': 'stream S: Submit on a Runtime whose RoundTripper returns a crafted response: Content-Type values (pool of registered/unregistered types x '
+         "random letter case x leading/trailing blanks x well-formed, malformed and duplicate parameters; malformed values such as ';;', 'text/', 'a "
+         "b/c', byte noise; absent, empty, two lines, any spelling of the header name) x default media type (valid, with parameters, upper case, "
+         "empty, malformed) x registry (random subset of the pool, biased to hold the response's type, with/without '*/*', odd keys: upper case, "
+         'with parameters, lone token, empty) x status code/status text x 0-4 other headers with case-variant names x queried names x random body '
+         'bytes x operation-level vs transport-level client (lazy or NewWithClient) and context (nil/live/cancelled/deadline) x timeout x Debug x '
+         'reader returning an error. Consumers are instrumented (identity = registry key); the reader records what it saw. Stream M: '
+         "mime.ParseMediaType on the part before ';' vs the hand model. Stream R (also run in a -race build, tier race): N goroutines released "
+         'together on one Runtime against an httptest.Server, first calls included, per-call tokens. Stream M is exhaustive over all strings of '
+         'length <= 3 (thorough: <= 5) over {a B / ; blank quote *} plus random values. Non-trivial = every S and R case (all reach the selection or '
+         'the precedence logic; M cases are tagged trivial); distinct = distinct input lines.',
+ 'search_s': 45,
+ 'thorough_n': 150000,
+ 'thorough_seeds': 4,
+ 'trusted_base': ['reading of the property text into the Lean `Spec` (human step, RtVerif/Model/<id>.lean)',
+                  'correspondence check (differential: Go harness /verif/harness -> protocol lines -> compiled Lean driver rtdriver evaluating Model '
+                  'and Spec); coverage bounded by the generators',
+                  "factgen (go/ast extraction of constants/tables into RtVerif/Gen/Facts.lean) and the driver's line parser",
+                  "mime.ParseMediaType (stdlib) is hand-modelled for ';'-free ASCII input (token grammar, lower-casing, TrimSpace) and validated "
+                  'differentially (stream M, and the exact error text in every S case)',
+                  'strconv.Quote/%q is hand-modelled for ASCII; http.Header.Get/Values as case-insensitive lookup over token names; http.Client.Do '
+                  "as 'returns the response the RoundTripper produced for this request' (no redirects: no Location header is generated)",
+                  'sync.Once is modelled as one atomic check-and-set step; the Go memory model is not represented']}
+
 # properties not claimed (with the reason) and hook commits in /repo (none so far: no hooks needed)
 NOT_APPLICABLE = {}
 HOOK_COMMITS = []
